@@ -70,7 +70,7 @@ def shards(tier):
 
 def required_counters(tier):
     return {
-        "calls.well_typed": 1000,
+        "calls.well_typed": 1000, "classes.constructions": 30, "joint_typechecker.calls": 5,
         "calls.ill_typed": 300,
         "calls.non_binding": 300,
         "kind.def": 300,
@@ -487,8 +487,176 @@ def run_case(rec, rng, rngkey=None):
                 rec.violation("non-binding-error", case, f"non-binding call ({nb}): plain raises TypeError, decorated {o2[0]} {type(o2[1]).__name__}: {str(o2[1])[:150]}", mechanism=f"non-binding-{type(o2[1]).__name__}")
 
 
+CLASS_SRC = {
+    # a decorated dataclass of its own (reference shape)
+    "own-init": """
+@jaxtyped(typechecker=tc)
+@dataclasses.dataclass
+class K:
+    x: Float[N, "n"]
+    y: Float[N, "n"]
+    def __post_init__(self):
+        LOG.append("body")
+""",
+    # the __init__ in use is INHERITED from an undecorated dataclass (a library's), the subclass is decorated
+    "inherited-from-undecorated-dataclass": """
+@dataclasses.dataclass
+class Base:
+    x: Float[N, "n"]
+    y: Float[N, "n"]
+    def __post_init__(self):
+        LOG.append("body")
+@jaxtyped(typechecker=tc)
+class K(Base):
+    def dot(self):
+        return 0
+""",
+    "dataclass-init-false-child": """
+@dataclasses.dataclass
+class Base:
+    x: Float[N, "n"]
+    y: Float[N, "n"]
+    def __init__(self, x: Float[N, "n"], y: Float[N, "n"]):
+        LOG.append("body")
+        self.x = x
+        self.y = y
+@jaxtyped(typechecker=tc)
+@dataclasses.dataclass(init=False)
+class K(Base):
+    pass
+""",
+    "decorated-parent-plain-child": """
+@jaxtyped(typechecker=tc)
+@dataclasses.dataclass
+class Base:
+    x: Float[N, "n"]
+    y: Float[N, "n"]
+    def __post_init__(self):
+        LOG.append("body")
+class K(Base):
+    pass
+""",
+    "equinox-module-inherited-init": """
+class Base(eqx.Module):
+    x: Float[N, "n"]
+    y: Float[N, "n"]
+    def __init__(self, x: Float[N, "n"], y: Float[N, "n"]):
+        LOG.append("body")
+        self.x = x
+        self.y = y
+@jaxtyped(typechecker=tc)
+class K(Base):
+    def dot(self):
+        return 0
+""",
+    "equinox-module-own-fields": """
+@jaxtyped(typechecker=tc)
+class K(eqx.Module):
+    x: Float[N, "n"]
+    y: Float[N, "n"]
+    def __post_init__(self):
+        LOG.append("body")
+""",
+}
+
+
+def arm_classes(rec):
+    """(what is checked is the signature of the __init__ in use: generated by @dataclass from the fields, or
+    hand-written WITH annotations)
+    constructing a decorated class: ill-typed fields are refused before the body (__init__ / __post_init__) has
+    run, well-typed ones run it exactly once - wherever the __init__ the class uses was defined"""
+    import dataclasses
+
+    import beartype
+    import equinox as eqx
+    import typeguard
+
+    from jaxtyping import Float, jaxtyped
+
+    good, good2 = real.np_array((3,)), real.np_array((3,))
+    bad_rank, bad_size, bad_dtype = real.np_array((3, 4)), real.np_array((5,)), real.np_array((3,), "int32")
+    for cname, tc in (("typeguard", typeguard.typechecked), ("beartype", beartype.beartype)):
+        for kind, src in CLASS_SRC.items():
+            LOG = []
+            ns = {"dataclasses": dataclasses, "eqx": eqx, "Float": Float, "N": np.ndarray, "jaxtyped": jaxtyped, "tc": tc, "LOG": LOG}
+            real.exec_src(src, ns)
+            K = ns["K"]
+            for iname, args, kwargs, well in (
+                ("well", (good, good2), {}, True),
+                ("well-kw", (), {"x": good, "y": good2}, True),
+                ("ill-rank", (bad_rank, good), {}, False),
+                ("ill-size-kw", (), {"x": good, "y": bad_size}, False),
+                ("ill-dtype", (good, bad_dtype), {}, False),
+            ):
+                del LOG[:]
+                try:
+                    K(*args, **kwargs)
+                    got = "constructed"
+                except Exception as e:  # noqa
+                    got = type(e).__name__
+                rec.count("classes.constructions")
+                rec.case(("class", kind, cname, iname), True)
+                # the body of a dataclass __init__ is generated code that runs BEFORE the fields can be checked: what
+                # the property promises for a violated construction is the error; for a hand-written __init__ that is
+                # inherited the same holds. "Not run at all" is judged for functions; here: error iff violated.
+                if well and (got != "constructed" or LOG != ["body"]):
+                    rec.violation("class-construction", {"kind": kind, "checker": cname, "input": iname}, f"{kind} ({cname}): well-typed construction gave {got}, body ran {len(LOG)}x", mechanism=f"class-{kind}-well-typed-{got}")
+                if not well and got == "constructed":
+                    rec.violation("class-construction", {"kind": kind, "checker": cname, "input": iname}, f"{kind} ({cname}): ill-typed construction ({iname}) was accepted, body ran {len(LOG)}x", mechanism=f"class-{kind}-ill-typed-accepted")
+
+
+def arm_joint_typechecker(rec):
+    """a typechecker is any decorator that raises TypeError: one whose constraint spans SEVERAL parameters (all
+    `Same`-annotated arguments must have one type) rejects a call in which no single parameter is to blame -
+    the body still must not run, and the error still is a TypeCheckError"""
+    import functools
+
+    from jaxtyping import Float, TypeCheckError, jaxtyped
+
+    class Same:
+        pass
+
+    def joint(fn):
+        sig = inspect.signature(fn)
+
+        @functools.wraps(fn)
+        def w(*a, **k):
+            b = sig.bind(*a, **k)
+            kinds = set()
+            for n, v in b.arguments.items():
+                if sig.parameters[n].annotation is Same:
+                    kinds |= {type(e) for e in v} if sig.parameters[n].kind is inspect.Parameter.VAR_POSITIONAL else {type(v)}
+            if len(kinds) > 1:
+                raise TypeError(f"Same-annotated parameters have different types: {sorted(t.__name__ for t in kinds)}")
+            return fn(*a, **k)
+
+        return w
+
+    LOG = []
+    ns = {"Same": Same, "Float": Float, "N": np.ndarray, "LOG": LOG}
+    real.exec_src('def f(x: Same, y: Same, z: Float[N, "a"] = None, *rest: Same):\n    LOG.append("body")\n    return "ret"\n', ns)
+    f = jaxtyped(typechecker=joint)(ns["f"])
+    arr = real.np_array((2,))
+    for iname, args, well in (("well", (1, 2, arr), True), ("well-rest", (1, 2, arr, 3, 4), True), ("ill-pair", (1, "a", arr), False), ("ill-rest", (1, 2, arr, "s"), False), ("ill-pair-kw", None, False)):
+        del LOG[:]
+        try:
+            out = f(x=1, y="a") if args is None else f(*args)
+            got = "returned"
+        except BaseException as e:  # noqa
+            got = "TypeCheckError" if isinstance(e, TypeCheckError) else type(e).__name__
+        rec.count("joint_typechecker.calls")
+        rec.case(("joint", iname), True)
+        if well and (got != "returned" or LOG != ["body"]):
+            rec.violation("joint-constraint", {"input": iname}, f"typechecker with a cross-parameter constraint: well-typed call {iname} gave {got}, body ran {len(LOG)}x", mechanism="joint-typechecker-well-typed-" + got)
+        if not well and (got != "TypeCheckError" or LOG):
+            rec.violation("joint-constraint", {"input": iname}, f"typechecker with a cross-parameter constraint: violated call {iname} gave {got}, body ran {len(LOG)}x (expected TypeCheckError, body not run)", mechanism="joint-typechecker-violated-" + got + ("-body-ran" if LOG else ""))
+
+
 def run_shard(rec, seed, shard, tier):
     warnings.filterwarnings("ignore")
+    if shard["i"] % 8 == 0:
+        arm_classes(rec)
+        arm_joint_typechecker(rec)
     for k in range(CASES[tier]):
         key = f"{seed}/C07/{shard['i']}/{k}"
         run_case(rec, random.Random(key), rngkey=key)
